@@ -134,7 +134,8 @@ PROPS["C02"] = {
     "level": "proof",
     "verus": {"streamname": ["from_b64", "decode", "lemma_dec_bits"]},
     "assumptions": [
-        "readers are checked one by one against format specs written in the harnesses; the composition in Package::open, absent _Validation, and 'changes preserve untouched content' (exec / cfb) are NOT covered",
+        "readers are checked one by one against format specs written in the templates; the composition in Package::open, absent _Validation, and 'changes preserve untouched content' (exec / cfb) are NOT covered",
+        "Table::read_rows (group rows): for an arbitrary stream, the row count is the stream length divided by the row width, a stream of more than 65536 rows is refused and NOTHING else is, cell (i, c) of the result is the column-major cell of the stream; assumes a 64-bit usize (the count is computed in u64 and cast) and the in-memory stream model (seek to the end / rewind cannot fail); read_value / width contracts are imported from groups readers / serial",
     ],
 }
 
@@ -153,7 +154,7 @@ PROPS["C09"] = {
               "timestamp": ["system_time_from_timestamp", "timestamp_delta_to_duration"],
               "streamname": ["decode", "from_b64"]},
     "assumptions": [
-        "only the readers in reach are decided (cell, reference, type word, pool header/data, property values); the unwrap()s on catalog cells in Package::open, exec call sites, the FFI expect, and hangs/aborts from huge allocation requests are NOT covered",
+        "only the readers in reach are decided (cell, reference, type word, pool header/data, property values, whole row streams via Table::read_rows); allocation of the row vectors is modelled as succeeding (at most 65536 rows); the unwrap()s on catalog cells in Package::open, exec call sites, the FFI expect, and hangs/aborts from huge allocation requests are NOT covered",
     ],
 }
 
@@ -205,6 +206,10 @@ PROPS["C09"]["verus"]["readers"] = READER_FNS
 PROPS["C14"]["probes"] = {"CodePage::encode": ["encode"]}
 PROPS["C18"]["probes"] = {"timestamp_from_system_time": ["time"], "system_time_from_timestamp": ["time"],
                           "duration_to_timestamp_delta": ["time"], "timestamp_delta_to_duration": ["time"]}
+ROWS_FNS = ["Table::read_rows", "Column::coltype", "lemma_row_width_bounds", "lemma_row_width_mono", "lemma_mul_step", "lemma_mul_dist", "lemma_mul_mono", "lemma_div_mul"]
+PROPS["C02"]["verus"]["rows"] = ROWS_FNS
+PROPS["C09"]["verus"]["rows"] = ROWS_FNS
+PROPS["C01"]["verus"]["rows"] = ["Table::read_rows"]
 PROPS["C01"]["verus"]["finish"] = ["FinishImpl::finish", "Package::flush"]
 PROPS["C01"]["verus"]["readers"] = ["StringRef::read", "ColumnType::read_value", "Timestamp::read_from", "PropertyValue::read",
                                     "StringPoolBuilder::read_from_pool", "lemma_le16_roundtrip", "lemma_parse_entry",
